@@ -340,3 +340,24 @@ LEVEL_TEXT += _ADD17
 _ADD22 = ' Borrowed: R13.9, R02.1 (the NoneType / scalar packers that union members are built from).'
 EXPLANATION += _ADD22
 LEVEL_TEXT += _ADD22
+
+
+_run_before_r5 = run
+
+
+def run(repo, rep, tier):  # noqa: F811 -- round-5 shape rules appended to the rules above
+    _run_before_r5(repo, rep, tier)
+    if getattr(rep, "borrowed", False):
+        return
+    from ..core import round5 as _r5
+    _r5.union_guard_class(repo, rep, "R11.12")
+    _r5.loop_freshness(repo, rep, "R11.11")
+    rep.floor("R11.11", 13)
+
+
+_ADDR5B = " R11.11: in every loop of the generator modules a variable the loop body assigns is read only after this iteration assigned it, except for the 13 confirmed accumulators / sticky flags of round5.LOOP_CARRIED_OK (a stale loop variable hands the previous member's converter to the next member)."
+EXPLANATION += _ADDR5B
+LEVEL_TEXT += _ADDR5B
+_ADDR5C = " R11.12: pack_union reduces every member type named in the `value.__class__ is/in (...)` guard to its runtime class with get_type_origin() first (no value's class is a generic alias, so a guard naming List[int] never matches)."
+EXPLANATION += _ADDR5C
+LEVEL_TEXT += _ADDR5C
